@@ -309,6 +309,28 @@ def direct_fitter(rec, spec, full, mk, p_exp, k, kw, cp_user, e0, case):
         if not f.fp.get("success"):
             return
         out[kk] = f.fp
+    # the fitter guesses the initial parameters itself when none are given
+    # (curve not fitted before): the guess is in measured units for every k
+    guess = {}
+    for kk in (k, 1.0):
+        idnt, _t = fitlab.build_curve(spec)
+        try:
+            if "tip position" not in idnt.columns:
+                idnt.apply_preprocessing(["compute_tip_position"])
+            f = IndentationFitter(idnt, gcf_k=kk, model_key=mk,
+                                  segment=kw.get("segment", 0),
+                                  weight_cp=0)
+            guess[kk] = f.fp["params_initial"]["contact_point"].value
+        except BaseException as e:  # noqa
+            rec.event("fitter guess raised " + type(e).__name__)
+            break
+    if len(guess) == 2:
+        rec.event("initial guesses of the fitter compared (k vs 1)")
+        rec.check(guess[k] == guess[1.0],
+                  "direct-fitter/guessed-cp-not-in-measured-units",
+                  "IndentationFitter(idnt, gcf_k=%r) guesses the initial "
+                  "contact point %r, with k=1 %r" % (k, guess[k],
+                                                     guess[1.0]), case)
     rec.event("twins through the fitter's keyword interface")
     rec.evaluated(dg=(spec, k, kw, "direct-fitter"))
     pa, pb = out[k]["params_fitted"], out[1.0]["params_fitted"]
